@@ -43,7 +43,7 @@ def plan(tier, seed, kf_ids, prefix="c12", budget=False):
     jobs = []
 
     def B(alias):
-        return str(T.budget(alias)) if budget else T.BIG
+        return T.budget_expr(alias) if budget else T.BIG
 
     def UW(alias, n):
         # with a budget every loop may run up to budget+1 times before tick() panics
